@@ -83,6 +83,7 @@ func runItem(i int, it *BatchItem) (rec string) {
 	case it.Tree != nil:
 		var to TreeOutcome
 		to.Binds = map[string]map[string][]string{}
+		to.FlagBinds = map[string]map[string][]string{}
 		RunTreeInner(&to, it.Tree)
 		out = to.Outcome
 		extra = to.Binds
